@@ -3,15 +3,17 @@ from vcommon import *
 import scen_common
 
 PID = "C09"
-PROP_V = ["Props/Properties_C09.v", "Props/Properties_C09b.v", "Props/Properties_C08b.v"]
+PROP_V = ["Props/Properties_C09.v", "Props/Properties_C09b.v", "Props/Properties_C09c.v", "Props/Properties_C08b.v"]
 GEN_MODULES = ["Consts", "Sites"]
 FLOW_FILES = ['note.c']
 REPLAY_HINT = "VRT_SEED=<seed> VRT_FAMILY=<f> _work/h/note_mix | note_f8 | note_f9"
 PARTIAL = ["'no such call deadlocks': the Definition C09_no_stuck_full of Properties_C09 (some thread's step is not EvBlocked) is satisfiable by an IDLE thread "
            "(third statement audit: it follows from nthr_ok alone), so C09_no_stuck_full_proved by itself says nothing; what Proof/NoteProof8-12 establish is the "
            "stronger `progress` (a thread with a NON-EMPTY stack whose step is not blocked: C09_lock_holder_rank, C09_disc_holder_rank, C09_disc_accounted, "
-           "C09_children_accounted), and the statement with a WORLD-CHANGING step by an unfinished thread is Properties_C09c.C09_no_stuck_strong when that file is "
-           "present (it excludes stuttering top frames by a shape invariant).  Method: ranking argument over the four condition waits (rank 0 for the "
+           "C09_children_accounted), and THE statement is Properties_C09c.C09_no_stuck_strong: in every reachable non-broken world in which some thread is inside a call and "
+           "not asleep in nsync_note_wait's semaphore wait, some UNFINISHED thread can take a step that CHANGES the world (shape invariant C09_top_frame: the frames "
+           "that only wait for a callee are never on top; C09_step_changes: a non-blocked step of a thread inside a call changes its stack; non-vacuity: "
+           "C09_strong_example, a thread really blocked on a note lock while its holder progresses).  Method: ranking argument over the four condition waits (rank 0 for the "
            "not_disconnecting waits, 2n+1 for the child waits on n, 2y+2 for a blocking lock of y; a blocked thread's responsible thread -- the "
            "lock holder, or the thread counted in disconnecting (C09_disc_accounted) -- can step or is blocked at a strictly higher rank), on the "
            "invariant InvS (Proof/NoteProof8-12); it uses the repairs F7, F10, F11 (children_changed = no children or adoptions differ from the "
